@@ -64,7 +64,7 @@ def r1_credentials(ctx, fam):
                     return match
                 problems.append(t)
                 return None
-            run = Run(f.node, oracle=oracle)
+            run = run_function(f, ctx.model, oracle=oracle)
             paths = [p for p in run.paths]
             # config() internals fork on read_only/mode: those are nested
             # defs and not entered, so one path per row is expected
